@@ -157,3 +157,17 @@ def mutations(code, rng, alphabet):
 
 def cps(s):
     return [ord(ch) for ch in s]
+
+
+def drifted(tr, reports, rep):
+    """Records on which the translated automaton and the real engine disagree.  With an exact translation that is a failure
+    of the machinery.  When a live pattern uses a construct the translator over-approximates (tr['approx']: atomic
+    groups), the automaton's idea of "is a code" is unreliable exactly on those strings: they are left out (C04 judges
+    such patterns on the engine's own answers) and counted."""
+    idx = {pr['index'] for pr in reports if pr['kind'] == 'drift'}
+    if idx and not tr.get('approx'):
+        raise common.MachineryError('automaton and re disagree on %d record(s), e.g. index %d' % (len(idx), min(idx)))
+    if idx:
+        rep.notes.append('%d record(s) left out: patterns %s use constructs translated as an over-approximation and the '
+                         'automaton disagrees with the engine there' % (len(idx), sorted(tr['approx'])))
+    return idx
